@@ -78,6 +78,7 @@ void ref_setround(int mode) { static const int m[4] = {FE_TONEAREST, FE_DOWNWARD
 int ref_getround(void) { int r = std::fegetround(); return r == FE_TONEAREST ? 0 : r == FE_DOWNWARD ? 1 : r == FE_UPWARD ? 2 : 3; }
 uint32_t ref_get_mxcsr(void) { return _mm_getcsr(); }
 void ref_set_mxcsr(uint32_t v) { _mm_setcsr(v); }
+void ref_set_x87cw(uint32_t v) { unsigned short cw = (unsigned short)v; __asm__ __volatile__("fldcw %0" : : "m"(cw)); }
 uint32_t ref_get_x87cw(void) { unsigned short cw; __asm__ __volatile__("fnstcw %0" : "=m"(cw)); return cw; }
 int ref_fp_ilogb0(void) { return FP_ILOGB0; }
 int ref_fp_ilogbnan(void) { return FP_ILOGBNAN; }
